@@ -260,6 +260,35 @@ class ProxySqlite:
         return getattr(sqlite3, name)
 
 
+def gate_path_class(hook):
+    """A pathlib.Path whose mkdir / exists / is_dir go through the scheduler (kind `fs`): parse() calls them on the
+    cache folder it is given, so two calls can be made to race on a folder that does not exist yet."""
+    base = type(Path())
+    inside = threading.local()
+
+    def gated(call):
+        # pathlib implements mkdir(parents=True) with further mkdir/is_dir calls on Path objects of the same class:
+        # only the outermost call is a scheduled event
+        if getattr(inside, "on", False):
+            return call()
+        inside.on = True
+        try:
+            return hook(None, "fs", call)
+        finally:
+            inside.on = False
+
+    class GatePath(base):
+        def mkdir(self, *a, **kw):
+            return gated(lambda: base.mkdir(self, *a, **kw))
+
+        def exists(self, *a, **kw):
+            return gated(lambda: base.exists(self, *a, **kw))
+
+        def is_dir(self, *a, **kw):
+            return gated(lambda: base.is_dir(self, *a, **kw))
+    return GatePath
+
+
 class Env:
     """pymoca.parser with version / sqlite3 substituted; restores on exit."""
 
@@ -285,6 +314,16 @@ class Env:
         self.pymoca.__version__, self.parser.sqlite3 = self.saved
         self.reload()
         return False
+
+
+def new_folder(ctx, prefix, state):
+    """The cache folder of one case.  For `fresh` it does NOT exist yet (two levels below an existing one):
+    the calls race on creating it."""
+    top = tempfile.mkdtemp(prefix=prefix, dir=scratch_base(ctx))
+    folder = os.path.join(top, "not", "yet")
+    if state != "fresh":
+        os.makedirs(folder)
+    return top, folder
 
 
 def make_state(folder, state, texts):
@@ -517,7 +556,7 @@ def scheduled_run(ctx, case, drv, pool):
     import random
     n = len(case["texts"])
     texts = [pool["texts"][i] for i in case["texts"]]
-    folder = tempfile.mkdtemp(prefix="c02-sched-", dir=scratch_base(ctx))
+    top, folder = new_folder(ctx, "c02-sched-", case["state"])
     make_state(folder, case["state"], pool["texts"])
     sched = Scheduler(n)
     proxy = ProxySqlite(sched.hook, timeout=T_BUSY, on_close=sched.on_close)
@@ -531,8 +570,9 @@ def scheduled_run(ctx, case, drv, pool):
         if case.get("preinit"):
             env.parser.parse.initialized_dbs = {Path(folder) / DB}
         upd = bool(case.get("update"))
+        gp = gate_path_class(sched.hook)
         threads = [threading.Thread(target=sched.worker, args=(i, (lambda t=texts[i]: env.parser.parse(
-            t, model_cache_folder=Path(folder), always_update_last_hit=upd))), daemon=True) for i in range(n)]
+            t, model_cache_folder=gp(folder), always_update_last_hit=upd))), daemon=True) for i in range(n)]
         for t in threads:
             t.start()
         live = list(range(n))
@@ -559,7 +599,7 @@ def scheduled_run(ctx, case, drv, pool):
                 continue
             preds = {}
             for t, k in sorted(pend.items()):
-                if k == "start":
+                if k in ("start", "fs"):
                     preds[t] = {"outcome": "ok", "lock": model[t]["lock"], "inTxn": model[t]["inTxn"]}
                     continue
                 ans = drv.ask({"op": "lock.call", "conns": model, "i": t, "stmt": k}) if drv is not None else None
@@ -573,7 +613,7 @@ def scheduled_run(ctx, case, drv, pool):
                 early = [t for t in enabled if not (pend[t] == "start" and len(choices) < stagger[t])]
                 if early:
                     enabled = early
-            waiting = [t for t in sorted(pend) if t not in enabled and pend[t] != "start"]
+            waiting = [t for t in sorted(pend) if t not in enabled and pend[t] not in ("start", "fs")]
             if forced is not None:
                 if len(choices) >= len(forced):
                     pick = (enabled or waiting)[0]
@@ -657,7 +697,7 @@ def scheduled_run(ctx, case, drv, pool):
         msg = db_oracle(folder, pool["texts"], pool["keys"])
         if msg:
             ctx.violation(msg, c, kind="schedule")
-    shutil.rmtree(folder, ignore_errors=True)
+    shutil.rmtree(top, ignore_errors=True)
     return overlap, choices
 
 
@@ -681,7 +721,18 @@ def _pool_worker(idx, cmd, res, barriers):
             c = cmd.recv()
             if c is None:
                 break
-            folder, txt, n, keep, upd = c
+            folder, txt, n, keep, upd, slow = c
+            # `slow` = (seconds, busy timeout): _parse is slowed down and connections get a short busy timeout, so
+            # a lock that is held while a text is parsed shows as "database is locked"
+            if slow:
+                real_parse = parser._parse
+                real_sqlite = parser.sqlite3
+
+                def slow_parse(text, _p=real_parse, _s=slow[0]):
+                    time.sleep(_s)
+                    return _p(text)
+                parser._parse = slow_parse
+                parser.sqlite3 = ProxySqlite(lambda pc, kind, fn: fn(), timeout=slow[1])
             if not keep and hasattr(parser.parse, "initialized_dbs"):
                 del parser.parse.initialized_dbs
             try:
@@ -696,6 +747,8 @@ def _pool_worker(idx, cmd, res, barriers):
                 import traceback
                 lines = [fr.lineno for fr in traceback.extract_tb(e.__traceback__) if fr.filename.endswith("parser.py")]
                 r = ("exc", "%s: %s" % (type(e).__name__, e), lines)
+            if slow:
+                parser._parse, parser.sqlite3 = real_parse, real_sqlite
             res.send(r)
     finally:
         os._exit(0)
@@ -725,7 +778,7 @@ class WorkerPool:
         self.nwarm = max(self.barriers)
         folders = [tempfile.mkdtemp(dir=self.warm) for _ in range(self.nwarm)]
         for i in range(self.nwarm):
-            self.cmd[i].send((folders[i], warm_text, self.nwarm, False, False))
+            self.cmd[i].send((folders[i], warm_text, self.nwarm, False, False, None))
         self.warming = True
 
     def ready(self):
@@ -737,12 +790,12 @@ class WorkerPool:
             shutil.rmtree(self.warm, ignore_errors=True)
             self.warming = False
 
-    def round(self, n, folder, texts, keep=False, upd=False):
+    def round(self, n, folder, texts, keep=False, upd=False, slow=None):
         if n not in self.barriers:
             raise HarnessError("no barrier for %d processes" % n)
         self.ready()
         for i in range(n):
-            self.cmd[i].send((folder, texts[i], n, keep, upd))
+            self.cmd[i].send((folder, texts[i], n, keep, upd, slow))
         out = []
         for i in range(n):
             try:
@@ -774,13 +827,17 @@ def stress_round(ctx, case, pool, workers):
     """case: {"kind":"stress","state":…, "n":N, "texts":[ix per process], "second":[ix per process]|None}.
     `second`: a second simultaneous call of every process on the same folder *without* forgetting
     initialized_dbs (long-running processes that have the database initialised)."""
-    folder = tempfile.mkdtemp(prefix="c02-stress-", dir=scratch_base(ctx))
+    top, folder = new_folder(ctx, "c02-stress-", case["state"])
     make_state(folder, case["state"], pool["texts"])
     n = case["n"]
     phases = [(case["texts"], False)] + ([(case["second"], True)] if case.get("second") else [])
     bad = False
     for texts, keep in phases:
-        results = workers.round(n, folder, [pool["texts"][t] for t in texts], keep, bool(case.get("update")))
+        real_texts = [pool["texts"][t] for t in texts]
+        if case.get("slow"):
+            # every call gets a text of its own (a trailing comment: same tree, other hash), so every call misses
+            real_texts = [t + "// call %d\n" % i for i, t in enumerate(real_texts)]
+        results = workers.round(n, folder, real_texts, keep, bool(case.get("update")), case.get("slow"))
         for i, r in enumerate(results):
             if r[0] == "exc":
                 if r[1].startswith("Harness"):
@@ -802,14 +859,14 @@ def stress_round(ctx, case, pool, workers):
             ctx.violation(msg, case, kind="stress")
             bad = True
             break
-    shutil.rmtree(folder, ignore_errors=True)
+    shutil.rmtree(top, ignore_errors=True)
     return not bad
 
 
 def thread_round(ctx, case, pool):
     """case: {"kind":"threads","state":…, "n":N, "texts":[…], "second":[…]|None, "update":bool}: N free-running threads
     of this process (one shared `parse.initialized_dbs`, forgotten before the first phase) released by a barrier."""
-    folder = tempfile.mkdtemp(prefix="c02-threads-", dir=scratch_base(ctx))
+    top, folder = new_folder(ctx, "c02-threads-", case["state"])
     make_state(folder, case["state"], pool["texts"])
     n = case["n"]
     bad = False
@@ -850,7 +907,7 @@ def thread_round(ctx, case, pool):
                 ctx.violation(msg, case, kind="threads")
                 bad = True
                 break
-    shutil.rmtree(folder, ignore_errors=True)
+    shutil.rmtree(top, ignore_errors=True)
     return not bad
 
 
@@ -929,6 +986,10 @@ def _run_ties(ctx, drv, quick, rng, pool, workers):
             raise HarnessError("drv_c02 rejected prog.check: %s" % ans)
         ctx.extra["program"] = {"paths": ans["npaths"], "noUpgrade": ans["noUpgrade"], "sql_statements": len(ex["sql"]),
                                 "caught_integrity": ex["caught_integrity"], "isolation_none": ex["isolation_none"]}
+        ctx.extra["program"]["noWorkInsideTxn"] = ans.get("noWorkInsideTxn")
+        if ans.get("noWorkInsideTxn") is False:
+            ctx.tie_broken("obligation:noWorkInsideTxn sqlProgram", "in the extracted statement tree _parse()/pickling is called "
+                           "inside a transaction: a lock is held for a time that depends on the text")
         if not ans["noUpgrade"]:
             ctx.tie_broken("obligation:noUpgrade sqlProgram", "the extracted statement tree has a path that writes inside a "
                            "transaction that has only read, nests BEGIN, or leaves a transaction open")
@@ -1013,8 +1074,9 @@ def _run_ties(ctx, drv, quick, rng, pool, workers):
     plan = []
     if quick:
         plan += [("fresh", 4)] * 6 + [("fresh", 8)] * 8 + [("existing", 8)] * 3 + [("wronglayout", 8)] * 3 + [("cached", 8)] * 4
+        plan += [("existing-slow", 8)] * 2
     else:
-        plan += [("fresh", 4)] * 20 + [("fresh", 8)] * 30 + [("fresh", 16)] * 50 + [("existing", 16)] * 40 + [("wronglayout", 16)] * 40 + [("cached", 16)] * 40
+        plan += [("fresh", 4)] * 20 + [("fresh", 8)] * 30 + [("fresh", 16)] * 50 + [("existing", 16)] * 40 + [("wronglayout", 16)] * 40 + [("cached", 16)] * 40 + [("existing-slow", 16)] * 10
     for r, (state, n) in enumerate(plan):
         if ctx.time_left() < 0:
             ctx.notes.append("stress stopped by the time budget after %d rounds" % r)
@@ -1022,11 +1084,16 @@ def _run_ties(ctx, drv, quick, rng, pool, workers):
         mode = r % 3
         texts = [0] * n if mode == 0 else ([i % 3 for i in range(n)] if mode == 1 else [rng.randrange(3) for _ in range(n)])
         second = [rng.randrange(3) for _ in range(n)] if r % 4 == 3 else None
+        slow = None
+        if state.endswith("-slow"):
+            # every call misses (distinct unseen texts would be better still; the same text is fine: INSERT OR REPLACE),
+            # the parse takes 0.4 s, the busy timeout is 1.5 s: harmless as long as no lock is held while parsing
+            state, slow, second = state[:-5], [0.4, 1.5], None
         case = {"kind": "stress", "state": state, "n": n, "texts": texts, "second": second, "update": state == "cached",
-                "pool": pool["texts"], "round": r}
+                "slow": slow, "pool": pool["texts"], "round": r}
         ok = stress_round(ctx, case, pool, workers)
         ctx.case({k2: v for k2, v in case.items() if k2 != "pool"}, nontrivial=n >= 4)
-        ctx.count("stress-%s-%d%s" % (state, n, "-twice" if second else ""))
+        ctx.count("stress-%s-%d%s%s" % (state, n, "-twice" if second else "", "-slow" if slow else ""))
         if not ok:
             break
     mark("stress")
